@@ -1942,6 +1942,30 @@ def check_C09(ctx):
     r = sh(["gcc", "-shared", "-fPIC", "-w", f"-I{REPO}/include"] + srcs + ["-o", os.path.join(libdir, bname), f"-L{impl['dir']}", "-lcgreen"])
     if r.returncode != 0:
         raise BuildError("test library: " + r.stdout[-1500:])
+    # a pattern that selects exactly one test (context qualified, wildcard in the name part) while a test of another context also
+    # fits the name part: the one selected test is the one that runs
+    cname = "libctx_tests.so"
+    citems = sorted([("Lexer", "reads_tokens"), ("Lexer", "skips_blanks"), ("Parser", "reads_empty_input"), ("Parser", "reads_words"), ("Parser", "skips_fails"), ("default", "reads_nothing")])
+    srcs = []
+    for c, text in library_sources(cname, citems).items():
+        src = os.path.join(libdir, f"libctx_{c}.c"); open(src, "w").write(text); srcs.append(src)
+    r = sh(["gcc", "-shared", "-fPIC", "-w", f"-I{REPO}/include"] + srcs + ["-o", os.path.join(libdir, cname), f"-L{impl['dir']}", "-lcgreen"])
+    if r.returncode != 0:
+        raise BuildError("test library: " + r.stdout[-1500:])
+    libs.append((cname, citems))
+    for pat in ["Lexer:reads*", "Lex*:reads*", "Lexer:skips*", "Parser:skips*", "Parser:reads_w*", "Parser:*input", "P*:*_fails", "L*:*blanks", "reads*", "Lexer:*s", "*:reads_t*"]:
+        runs.append(([(cname, pat)], rng.choice([[], ["-q"], ["--xml", "X"]])))
+    # tests with very long names (the symbol of a test is its context and name; nm prints one line per symbol)
+    lname, litems = "liblong_tests.so", sorted([("default", "short_one"), ("Ctx", "n" * 975), ("Ctx", "m" * 1200 + "_fails"), ("default", "p" * 2500), ("Ctx", "zz")])
+    srcs = []
+    for c, text in library_sources(lname, litems).items():
+        src = os.path.join(libdir, f"liblong_{c}.c"); open(src, "w").write(text); srcs.append(src)
+    r = sh(["gcc", "-shared", "-fPIC", "-w", f"-I{REPO}/include"] + srcs + ["-o", os.path.join(libdir, lname), f"-L{impl['dir']}", "-lcgreen"])
+    if r.returncode != 0:
+        raise BuildError("test library: " + r.stdout[-1500:])
+    libs.append((lname, litems))
+    for pat in [None, "Ctx:*", "n*", "Ctx:" + "n" * 975, "*:p*", "zz", "Ctx:m*"]:
+        runs.append(([(lname, pat)], rng.choice([[], ["-q"], ["--xml", "X"]])))
     unloadable = {bname}
     for _ in range(sizes(ctx, 6, 40)):
         chosen = rng.sample(libs[: min(len(libs), 14)], rng.choice([0, 1, 2]))
@@ -2074,6 +2098,7 @@ def check_C14(ctx):
     rng = random.Random(ctx.seed * 1000 + 14)
     bench = Bench(ctx)
     scens, envs, labels = [], [], []
+    again_model = {}
     for mode in ("fork", "inproc", "single:slow"):
         for pos in (0, 1, 2):
             for pre in ([], ["P"], ["F"], ["P", "F", "P"]):
@@ -2092,10 +2117,18 @@ def check_C14(ctx):
         for how, env in (("env", {"CGREEN_PER_TEST_TIMEOUT": "1"}), ("die_in", {})):
             root = S("top", items=[T("poller", body=["IA", "P"]), T("b", body=["P"]), T("slow", body=["P", "Z" if how == "env" else "ZD"])])
             scens.append(Scen(root, mode=mode)); envs.append(env); labels.append(f"{mode}, an earlier test leaves SIGALRM ignored, limit by {how}")
+    # two runs in one process with the variable changed in between: the limit in force is the one of the run that is going on
+    # (not modelled as such: the second run is the model's run; the first one ends in time)
+    for first, second in (("single:a", "single:slow"), ("single:a", "fork"), ("single:a", "inproc")):
+        root = S("top", items=[T("a", body=["P"]), T("slow", body=["P", "Z"])])
+        sc = Scen(root, mode=first); sc.again = ("1", second)
+        msc = Scen(root, mode=second)
+        scens.append(sc); envs.append({"CGREEN_PER_TEST_TIMEOUT": "300"}); labels.append(f"second run in the same process ({second}) with the limit lowered from 300 s to 1 s")
+        again_model[len(scens) - 1] = msc
     # slow context setup (the limit covers the fixtures too)
     for mode in ("fork", "single:slow"):
         scens.append(Scen(S("top", items=[T("slow", ctx=1, setup=["Z"], body=["P"]), T("b", body=["P"])]), mode=mode)); envs.append({"CGREEN_PER_TEST_TIMEOUT": "1"}); labels.append(f"{mode}, overrun in the context's setup")
-    models = run_model_scenarios([s.text() for s in scens])
+    models = run_model_scenarios([(again_model.get(i, s)).text() for i, s in enumerate(scens)])
 
     def one(i):
         wd = os.path.join(ctx.work, f"c14-{i}")
@@ -2106,8 +2139,10 @@ def check_C14(ctx):
     with ThreadPoolExecutor(max_workers=64) as pool:
         obs = list(pool.map(one, range(len(scens))))
     ndis = shown = 0
-    for s, m, o, lab, en in zip(scens, models, obs, labels, envs):
+    for si, (s, m, o, lab, en) in enumerate(zip(scens, models, obs, labels, envs)):
         ds = compare(m, o, "text", check_events=False)
+        if si in again_model:      # (the output of the first run precedes the second's: only the way the process ends is compared)
+            ds = [] if model_status(m) == status_of(o) else [f"status: model={model_status(m)} impl={status_of(o)}"]
         if ds:
             ndis += 1
             if ndis <= 3: ctx.oblige("correspondence C14", False, f"{lab}: {ds[0]}")
@@ -2115,7 +2150,7 @@ def check_C14(ctx):
         errs = []
         if st == "timeout": errs.append("the test was not stopped (the run was still going after 40 s)")
         elif st in ("0", "exit0"): errs.append(f"the run's verdict is success (status {st}) although a test overran its limit")
-        if s.mode == "fork" and st in ("0", "1"):
+        if s.mode == "fork" and st in ("0", "1") and si not in again_model:
             e = oracle_C03(s, m, o, "text")
             if e: errs.append(e)
         if errs and shown < 6:
